@@ -105,12 +105,18 @@ func c09Pipeline(kind string) netty.Pipeline {
 		pl.AddLast(frame.DelimiterCodec(1<<20, "\n", true), format.TextCodec())
 	case "lf":
 		pl.AddLast(frame.LengthFieldCodec(binary.BigEndian, 1<<20, 0, 2, 0, 2))
+	case "varint":
+		pl.AddLast(frame.VarintLengthFieldCodec(1 << 20))
+	case "varint+text":
+		pl.AddLast(frame.VarintLengthFieldCodec(1<<20), format.TextCodec())
+	case "packet":
+		pl.AddLast(frame.PacketCodec(1 << 20))
 	}
 	return pl
 }
 
 func genC09(rng *rand.Rand) *c09Scenario {
-	sc := &c09Scenario{sync: rng.Intn(2) == 0, qcap: []int{1, 2, 4, 8}[rng.Intn(4)], pipeline: []string{"plain", "plain", "delim", "delim", "lf"}[rng.Intn(5)]}
+	sc := &c09Scenario{sync: rng.Intn(2) == 0, qcap: []int{1, 2, 4, 8}[rng.Intn(4)], pipeline: []string{"plain", "plain", "delim", "delim", "lf", "varint", "varint+text", "packet"}[rng.Intn(8)]}
 	nt := 2 + rng.Intn(2)
 	for t := 0; t < nt; t++ {
 		var ms []c09Msg
@@ -121,11 +127,15 @@ func genC09(rng *rand.Rand) *c09Scenario {
 				kinds = []string{"b", "v", "f", "w", "w", "r", "r", "m", "m"}
 			case "delim":
 				kinds = []string{"s", "s", "b", "r", "m", "f"}
+			case "varint+text":
+				kinds = []string{"s", "b", "f"}
+			case "packet":
+				kinds = []string{"b", "r", "f", "m"}
 			default:
 				kinds = []string{"b", "s", "r"}
 			}
 			kind := kinds[rng.Intn(len(kinds))]
-			n := []int{3, 9, 40}[rng.Intn(3)]
+			n := []int{3, 9, 40, 130, 300}[rng.Intn(5)] // 130/300: a two-byte varint length prefix
 			if (kind == "r" || kind == "s" || kind == "f" || kind == "m") && rng.Intn(2) == 0 {
 				n = []int{1024, 1025, 1500, 2100}[rng.Intn(4)] // at and above the 1024-byte streaming chunk
 			}
